@@ -108,6 +108,54 @@ spec fn clean_lists(nodes: Seq<Node>) -> Seq<Seq<String>> { Seq::new(nodes.len()
             forall|i: int| 0 <= i < handles@.len() ==> (#[trigger] handles@[i]).job@.2 == old(elements).cache,
 //@ end
 
+// ================= get_nodes(): the plan both build() and clean() work from =================
+//@ extract rule.rs struct Rule
+//@ end
+struct ParseError { x: u8 }
+struct TopologicalSortError { x: u8 }
+enum PlanError { RuleFileFailedToParse(ParseError), TopologicalSortFailed(TopologicalSortError), Other(u8) }   // (the variants of BuildError this code constructs)
+// ASSUMED here (each is under contract in its own unit: parse_all in unit P, the sorter in unit S; reading the rules files goes
+// through the assumed System contract): what they return is a function of their arguments
+uninterp spec fn files_read(paths: Seq<String>) -> Result<Seq<(String, String)>, PlanError>;
+uninterp spec fn parsed(texts: Seq<(String, String)>) -> Result<Seq<Rule>, ParseError>;
+uninterp spec fn plan_for(rules: Seq<Rule>, goal: Seq<char>) -> Result<NodePack, TopologicalSortError>;
+uninterp spec fn plan_for_all(rules: Seq<Rule>) -> Result<NodePack, TopologicalSortError>;
+#[verifier::external_body]
+fn read_all_rules_files_to_strings<SystemType : System>(system : &SystemType, rulefile_paths : Vec<String>) -> (r: Result<Vec<(String, String)>, PlanError>)
+    ensures (match r { Ok(v) => files_read(rulefile_paths@) == Ok::<Seq<(String, String)>, PlanError>(v@), Err(e) => files_read(rulefile_paths@) == Err::<Seq<(String, String)>, PlanError>(e) })
+{ unimplemented!() }
+#[verifier::external_body]
+fn parse_all(contents : Vec<(String, String)>) -> (r: Result<Vec<Rule>, ParseError>)
+    ensures (match r { Ok(v) => parsed(contents@) == Ok::<Seq<Rule>, ParseError>(v@), Err(e) => parsed(contents@) == Err::<Seq<Rule>, ParseError>(e) })
+{ unimplemented!() }
+#[verifier::external_body]
+fn topological_sort(rules : Vec<Rule>, goal_target : &str) -> (r: Result<NodePack, TopologicalSortError>)
+    ensures r == plan_for(rules@, goal_target@)
+{ unimplemented!() }
+#[verifier::external_body]
+fn topological_sort_all(rules : Vec<Rule>) -> (r: Result<NodePack, TopologicalSortError>)
+    ensures r == plan_for_all(rules@)
+{ unimplemented!() }
+
+//@ extract build.rs fn get_nodes
+//@ props C01 C02 C09 C10 C12
+//@ ret res
+//@ retype 1 /Result<NodePack, BuildError>/ => Result<NodePack, PlanError>
+//@ rewrite * /BuildError::/ => PlanError::
+//@ spec
+    ensures
+        // the plan is the sorter's plan for the rules parsed from exactly the given files: restricted to the goal when one is given,
+        // the whole graph otherwise; a file that cannot be read, a parse error and a sorter error each come back as such          //# O-G-plan-of-given-files [C01,C02,C09,C10,C12]
+        files_read(rulefile_paths@) matches Err(e) ==> res == Err::<NodePack, PlanError>(e),
+        files_read(rulefile_paths@) matches Ok(texts) ==> (match parsed(texts) {
+            Err(pe) => res matches Err(PlanError::RuleFileFailedToParse(e)) && e == pe,
+            Ok(rules) => (match goal_target_opt {
+                Some(goal) => (match plan_for(rules, goal@) { Ok(pack) => res == Ok::<NodePack, PlanError>(pack), Err(se) => res matches Err(PlanError::TopologicalSortFailed(e)) && e == se }),
+                None => (match plan_for_all(rules) { Ok(pack) => res == Ok::<NodePack, PlanError>(pack), Err(se) => res matches Err(PlanError::TopologicalSortFailed(e)) && e == se }),
+            }),
+        }),
+//@ end
+
 // ================= build(): one thread per leaf, then one per rule of the plan =================
 //@ extract packet.rs struct Packet
 //@ end
